@@ -15,6 +15,7 @@ import Midgard.Model.WriterSta
   c17 tmshdr <col,…>                          the `* _NAME__` line
   c17 tmsdata <col,…> <epoch|epoch…>          epoch = <int>@env
   c17 tmsrange <col,…> <epoch|epoch…>         the range predicate of `tms_data_block_roundtrip` → 1 | 0
+  c17 csvsplit <hexline>                      the line cut at `,` / `;` → hex,hex,…  (`.` = empty piece)
   c17 blocks <0|1> <0|1> <0|1>                markers of the blocks written + balanced flag
   c17 csv <fmt,…> <row|row…>                  fmt = s | d | f<prec>;  row = <hexdate>@value;value…
   c17 crdfile <hextext,…> <0|1> <stations>    the whole file (header texts: solution, stamp, datum, epoch) → hex | err
@@ -224,6 +225,9 @@ def handle : List String → Option String
     let cs ← parseList? some cols
     let es ← if eps = "[]" then some [] else (eps.splitOn "|").mapM parseEpoch?
     pure (showBool (tmsRowsInRange cs (es.map (·.2))))
+  | ["c17", "csvsplit", hx] => do
+    let t ← decodeHex? hx
+    pure (",".intercalate ((splitSep t.toList).map hexOf))
   | ["c17", "blocks", a, b, c] => do
     let a ← parseBool? a; let b ← parseBool? b; let c ← parseBool? c
     let m := tmsMarkers (tmsBlocks a b c)
